@@ -9,7 +9,7 @@ D=/tmp/ev/$name
 rm -rf "$D"; mkdir -p "$D"
 git -C /repo worktree add -q --detach "$D/repo" HEAD || exit 2
 (cd "$D/repo" && git apply "$patch") || { echo "patch does not apply"; git -C /repo worktree remove --force "$D/repo"; rm -rf "$D"; exit 2; }
-rsync -a --exclude .work --exclude .git --exclude replays --exclude evidence /verif/ "$D/verif/"
+rsync -a --exclude .work --exclude .git --include '/replays/' --include '/replays/regress/***' --exclude '/replays/*' --exclude evidence /verif/ "$D/verif/"
 sed -i "s#=> /repo#=> $D/repo#" "$D/verif/harness/go.mod"
 cd "$D/verif" && mkdir -p evidence replays
 for p in $props; do
